@@ -49,7 +49,64 @@ def check_program(ctx, bt, spec, b, log):
         ctx.violation("C02/" + key, msg, {"spec": spec, "mode": "program"})
 
 
+def dynamic_substrategy_cases(ctx, bt, n):
+    """a sub-strategy booked while the run is going on (`Strategy(name, parent=p)`, `setup_from_parent()`, `update(p.now)`), funded by
+    its parent, and trading on LATER dates in securities it creates then (children given as strings) or wakes from idle, after prices
+    have moved: every date closed by an update, judged by the day-by-day attribution"""
+    import pandas as pd
+    from .. import gen_runs as R
+    for _ in range(n):
+        T = ctx.rng.randint(6, 10)
+        dates, _k = R.gen_index(ctx.rng, T)
+        idx = pd.DatetimeIndex(dates)
+        names = R.TICKERS[:ctx.rng.randint(2, 4)]
+        px = {t: [float(20 + 7 * j + ctx.rng.randint(-3, 6) * i) for i in range(T)] for j, t in enumerate(names)}
+        for t in names:
+            px[t] = [max(1.0, x) for x in px[t]]
+        data = pd.DataFrame(px, index=idx)
+        cap = 1000000.0
+        root = bt.Strategy("top", children=list(names))
+        root.setup(data)
+        root.adjust(cap)
+        root.update(idx[0])
+        case = {"dyn": {"dates": dates, "names": names, "prices": px}}
+        ctx.evaluations += 1
+        ctx.count("dynamic-substrategy-cases")
+        kb = ctx.rng.randint(1, T - 3)
+        kid = None
+        try:
+            for i in range(1, T):
+                root.update(idx[i])
+                if i == kb:
+                    kid = bt.Strategy("dyn", children=list(names), parent=root)
+                    kid.setup_from_parent()
+                    kid.update(root.now)
+                    root.allocate(cap * ctx.rng.choice([0.1, 0.25, 0.5]), "dyn")
+                    if ctx.rng.random() < 0.5:
+                        kid.allocate(1000.0 * ctx.rng.randint(5, 40), names[0])
+                elif kid is not None and ctx.rng.random() < 0.7:
+                    nm = ctx.rng.choice(names)
+                    if ctx.rng.random() < 0.5:
+                        kid.allocate(1000.0 * ctx.rng.randint(5, 40), nm)
+                    else:
+                        kid.transact(float(ctx.rng.randint(10, 400)), nm)
+                    if ctx.rng.random() < 0.3 and nm in kid.children and kid.children[nm]._position != 0:
+                        kid.close(nm)
+                if ctx.rng.random() < 0.5:
+                    root.allocate(1000.0 * ctx.rng.randint(5, 40), ctx.rng.choice(names))
+                root.update(idx[i])
+        except Exception as e:  # noqa
+            ctx.count("dynamic-substrategy:raised:" + E.classify_exc(e))
+            continue
+        ctx.classes.add(("dynamic-substrategy", len(names), kb))
+        user = {("top", 0): (cap, 0.0)}
+        for key, msg in M.pnl_check(bt, root, T, user):
+            ctx.violation("C02/" + key + ":dynamic-substrategy", msg, case)
+            break
+
+
 def run(ctx, bt):
+    dynamic_substrategy_cases(ctx, bt, ctx.scale(40, 600))
     from .. import gen_engine as _G
     run_engine_protocol(ctx, bt, ctx.scale(25, 400), [Monitor(ctx)], FOOT_FIELDS, None, spec_kwargs={"fi_tree": True},
                         spec_mutator=_G.carry_open_close, corr_name="step[C02]:carry-open-close")
@@ -77,6 +134,9 @@ def search(ctx, bt):
 
 def replay(bt, data, ctx):
     case = data["case"]
+    if "dyn" in case:
+        dynamic_substrategy_cases(ctx, bt, 300)      # regenerated from the seed of the run
+        return
     spec = case["spec"]
     if case.get("mode") == "program":
         run_one(ctx, bt, spec, check_program)
